@@ -124,8 +124,15 @@ def replay(prop, path):
     bad = []
     for op in case["ops"]:
       k = op[0]
+      if len(op) > 6 and op[6] == "race":
+        continue                                # the consumer's half of a racing clear(): performed by the clear record below/above
       try:
-        if k in ("append", "appendleft"):
+        if k == "clear" and len(op) > 6:
+          from checks.conc import racing_clear
+          st = racing_clear(ld, op[6])[0]
+          if st != "ok":
+            raise RuntimeError(st)
+        elif k in ("append", "appendleft"):
           getattr(ld, k)(op[1])
         elif k in ("popleft", "pop"):
           ld.wait(False)
